@@ -253,7 +253,8 @@ def install():
         _emit('XTRIG_HOUSEKEEP', sat=sorted(self.sat_xtrig),
               needed=sorted({
                   self.get_xtrig_ctx(t, label).get_signature()
-                  for t in itasks for label in t.state.xtriggers}))
+                  for t in itasks for label, sat in t.state.xtriggers.items()
+                  if not sat}))
         return orig_hk(self, itasks)
     XtriggerManager.housekeep = housekeep
 
